@@ -23,7 +23,8 @@
 (***************************************************************************)
 EXTENDS ParsleyMachine, Json, IOUtils
 
-CONSTANTS JudgeOnly
+CONSTANTS JudgeOnly,   \* TRUE: do not step the machine, only judge the logged observations
+          Props        \* the property predicates to evaluate, a subset of {"C01", "C02", "C04", "C06"}
 
 Trace == ndJsonDeserialize(IOEnv.TRACE)
 
@@ -60,19 +61,19 @@ Begin ==
   /\ done' = TRUE /\ runs' = [x \in {} |-> 0] /\ fails' = {}
   /\ Ev.adm => D!Admissible(Ev.G)      \* the generator's claims are re-asserted by the specification
   /\ Ev.c06 => D!Productive(Ev.G)
-  /\ T' = IF Ev.adm THEN D!Ends(Ev.G, Ev.w) ELSE <<>>
+  /\ T' = IF Ev.adm /\ Props \cap {"C01", "C04"} # {} THEN D!Ends(Ev.G, Ev.w) ELSE <<>>
   /\ apio' = <<>>
   /\ root' = l
   /\ rr' = 0
 
 \* ---- property predicates on logged observations ----------------------------------
 EndsOfLogged(res) == {res[i][3] - B : i \in 1..Len(res)}
-C01onRet == (Ev.top /\ T # <<>>) =>
+C01onRet == ("C01" \in Props /\ Ev.top /\ T # <<>>) =>
                IF EndsOfLogged(Ev.res) = T[Ev.n][Ev.pos - B] THEN TRUE
                ELSE Print(<<"C01 real ends differ from derivation: line", l, "node", Ev.n, "pos", Ev.pos,
                             EndsOfLogged(Ev.res), T[Ev.n][Ev.pos - B]>>, FALSE)
 SpansOK == \A i \in 1..Len(Ev.res) : Ev.res[i][2] <= Ev.res[i][3] /\ Ev.res[i][3] <= B + Len(w)
-C02onCall == Ev.bo > 0 =>
+C02onCall == ("C02" \in Props /\ Ev.bo > 0) =>
                IF Ev.act <= Len(w) - (Ev.pos - B) + 2 THEN TRUE
                ELSE Print(<<"C02 re-entry bound exceeded: line", l, "memo", Ev.bo, "pos", Ev.pos, "active", Ev.act>>, FALSE)
 
@@ -85,7 +86,7 @@ TextOf(msg, pos) == "failed to parse the input: " \o msg \o " at f:" \o ToString
 
 MsgOfNode(n) == IF G[n].k = "end" THEN "was expecting the end of input" ELSE G[n].name
 RootRet == Trace[rr]   \* the root call's return
-C04onApi ==
+C04onApi == "C04" \in Props =>
   LET rootNode == Trace[root].root IN
   /\ "panic" \notin DOMAIN Ev
   /\ Ev.node # Ev.err                                  \* exactly one of node / error
@@ -99,7 +100,7 @@ C06onApi ==
       att == {<<rt.att[i][1], MsgOfNode(rt.att[i][2])>> : i \in 1..Len(rt.att)}     \* failed terminal / End attempts
       nat == {<<rt.nat[i][1], MsgOfNode(rt.nat[i][2])>> : i \in 1..Len(rt.nat)}     \* named parsers that produced nothing
       far == IF att = {} THEN 0 ELSE CHOOSE p \in {a[1] : a \in att} : \A a \in att : a[1] <= p
-  IN (Ev.err /\ Trace[root].c06) =>
+  IN ("C06" \in Props /\ Ev.err /\ Trace[root].c06) =>
         IF \E a \in att \cup nat : /\ TextOf(a[2], a[1]) = Ev.text
                                    /\ a[1] <= far
                                    /\ (D!AllNamed(G) => a[1] = far)
